@@ -12,8 +12,8 @@ package main
 // call waits until the goroutines it spawned have finished), which is the order the model uses.
 
 import (
-	"crypto/tls"
 	"context"
+	"crypto/tls"
 	"crypto/x509"
 	"encoding/json"
 	"encoding/pem"
@@ -71,11 +71,11 @@ type c02Op struct {
 }
 
 type c02Case struct {
-	Fallback string       `json:"fallback,omitempty"` // cfg.FallbackServerName
-	Policy c02Policy     `json:"policy"`
-	Cap    int           `json:"cap"`
-	Certs  []c02CertSpec `json:"certs"`
-	Ops    []c02Op       `json:"ops"`
+	Fallback string        `json:"fallback,omitempty"` // cfg.FallbackServerName
+	Policy   c02Policy     `json:"policy"`
+	Cap      int           `json:"cap"`
+	Certs    []c02CertSpec `json:"certs"`
+	Ops      []c02Op       `json:"ops"`
 }
 
 // ---------------------------------------------------------------- environment
@@ -431,8 +431,8 @@ func c02WaitQuiet() bool {
 }
 
 type c02HsObs struct {
-	Name     *string       `json:"name"` // normalised name (nil: error)
-	Hit      int           `json:"hit"`  // certificate id matched in the cache (0: none)
+	Name     *string       `json:"name"`              // normalised name (nil: error)
+	Hit      int           `json:"hit"`               // certificate id matched in the cache (0: none)
 	Default  int           `json:"default,omitempty"` // certificate id "defaulted" by the cache lookup (0: none)
 	Mgr      string        `json:"mgr,omitempty"`     // what the managers would answer: none | empty | cert | err
 	Gs       [][]c02Effect `json:"effects"`
@@ -1011,8 +1011,8 @@ func c02Policies(name string) map[string]c02Policy {
 		"none":           {OD: "none"},
 		"decision-yes":   {OD: "decision", Sched: [][]string{{name, "other.example"}}},
 		"decision-no":    {OD: "decision", Sched: [][]string{{"other.example"}}},
-		"decision-flip":  {OD: "decision", Sched: [][]string{{name}, {}}}, // permits once, then denies
-		"decision-flip2": {OD: "decision", Sched: [][]string{{}, {name}}}, // denies once, then permits
+		"decision-flip":  {OD: "decision", Sched: [][]string{{name}, {}}},        // permits once, then denies
+		"decision-flip2": {OD: "decision", Sched: [][]string{{}, {name}}},        // denies once, then permits
 		"decision-first": {OD: "decision", Sched: [][]string{{"first.example"}}}, // permits only another name of a multi-SAN certificate
 		"allow-in":       {OD: "allow", Allow: []string{name, "other.example"}},
 		"allow-out":      {OD: "allow", Allow: []string{"other.example"}},
@@ -1083,6 +1083,31 @@ func c02Run(tier string, seed int64, outdir string, replay string) error {
 			cs := c02Single(pols[pn], 0, []c02CertSpec{{Names: []string{N}, Class: "expired", Managed: true, Stored: true}}, N, ok)
 			if err := run(cs, map[string]any{"class": "loaded-maintenance-fails", "policy": pn, "cert": "expired", "issue_ok": ok}); err != nil {
 				return err
+			}
+		}
+	}
+
+	// ---- corpus: witnesses of the fixed finding C02-revoked-renewal-other-subject (class
+	// revoked-renewal-other-subject): a cached revoked wildcard / multi-SAN certificate matched through
+	// another name than its first subject; the policy permits the handshake's name only, the first
+	// subject only, or both. forceRenew renews Names[0]: that is the name the policy must be asked about.
+	for _, names := range [][]string{{"*.example"}, {"first.example", N}} {
+		for _, class := range []string{"valid", "expired"} {
+			for _, kc := range []bool{false, true} {
+				rp := map[string]c02Policy{
+					"decision-sni-only":   {OD: "decision", Sched: [][]string{{N}}},
+					"decision-first-only": {OD: "decision", Sched: [][]string{{names[0]}}},
+					"decision-both":       {OD: "decision", Sched: [][]string{{N, names[0]}}},
+					"allow-sni-only":      {OD: "allow", Allow: []string{N}},
+					"allow-first-only":    {OD: "allow", Allow: []string{names[0]}},
+				}
+				for _, pn := range emit.SortedKeys(rp) {
+					p := rp[pn]
+					cs := c02Single(p, 0, []c02CertSpec{{Names: names, Class: class, Managed: true, Cached: true, Stored: true, Revoked: true, KeyComp: kc}}, N, true)
+					if err := run(cs, map[string]any{"class": "revoked-renewal-other-subject", "policy": pn, "cert": class, "subject": names[0], "keycomp": kc}); err != nil {
+						return err
+					}
+				}
 			}
 		}
 	}
